@@ -1,7 +1,12 @@
 import QR.Model.Compile
 import QR.Spec.Stream
+import QR.Proofs.Total
 /-
-C03 - compile succeeds or raises DataOverflowError, decided by capacity.  (Totality theorem under construction.)
+C03 - compile succeeds or raises DataOverflowError, decided by capacity.
+`Model.compile cfg segs` mirrors `QRCode(version, error_correction, mask_pattern)` + `add_data` + `make(fit)`:
+`chooseVersion` (the `best_fit` calls), `create_data`, `best_mask_pattern` (when no mask was requested), `makeImpl`.
+Hypotheses: `cfg.Valid` (what the constructor's `check_version` / `check_mask_pattern` accept), a level that is one
+of the four ISO indicators, and segments as `QRData(check_data=True)` produces them.  Unbounded in the payload.
 -/
 namespace QR.Props
 open QR
@@ -12,5 +17,76 @@ set_option maxRecDepth 100000 in
     (D2) a payload beyond version 40 with fitting on is a DataOverflowError, not a ValueError -/
 theorem C03_witness_zero_block :
     (Model.ecOfBlock (List.replicate 9 0) 17).toOption = some (List.replicate 17 0) := by decide +kernel
+
+/-- the validity predicate on configurations, spelled out: version `None` (0) or 1..40, mask `None` or 0..7 -/
+theorem C03_valid_iff (cfg : Model.Cfg) :
+    cfg.Valid ↔ cfg.version ≤ 40 ∧ ∀ m, cfg.mask = some m → m ≤ 7 := Iff.rfl
+
+/-- `create_data` is total on valid segments at every version 1..40 and level: it yields exactly the ISO number of
+    codewords when the stream fits, and raises DataOverflowError otherwise -/
+theorem C03_createData (v : Nat) (h1 : 1 ≤ v) (h40 : v ≤ 40) (l : Spec.Level) (segs : List Model.Seg)
+    (hv : ∀ s ∈ segs, s.Valid) (ps : List Spec.PSeg) (hp : toPSegs segs = some ps) :
+    (Spec.fits v l (segCounts ps) = true →
+      ∃ cw, Model.createData v l.indicator segs = .ok cw ∧ cw.length = Spec.totalCodewords v) ∧
+    (Spec.fits v l (segCounts ps) = false → Model.createData v l.indicator segs = .error .dataOverflow) :=
+  QR.Proofs.createData_total v h1 h40 l segs hv ps hp
+
+/-- `makeImpl` never fails for a version 1..40 and a mask pattern 0..7, whatever the codewords -/
+theorem C03_makeImpl (v : Nat) (h1 : 1 ≤ v) (h40 : v ≤ 40) (level mask : Nat) (hm : mask ≤ 7) (test : Bool)
+    (data : List Nat) : ∃ M, Model.makeImpl v level test mask data = .ok M :=
+  QR.Proofs.makeImpl_total v h1 h40 level mask hm test data
+
+/-- `best_mask_pattern` never fails and returns one of the eight patterns -/
+theorem C03_bestMaskPattern (v : Nat) (h1 : 1 ≤ v) (h40 : v ≤ 40) (level : Nat) (data : List Nat) :
+    ∃ k, Model.bestMaskPattern v level data = .ok k ∧ k ≤ 7 :=
+  QR.Proofs.bestMaskPattern_total v h1 h40 level data
+
+/-- a stream that fits some version 1..40 (written with that version's count-field widths) also fits version 40:
+    "no version from the start up to 40 is adequate" is the same as "version 40 is not adequate" -/
+theorem C03_fits_forty (l : Spec.Level) (cs : List (Spec.Mode × Nat)) (u : Nat) (h1 : 1 ≤ u) (h40 : u ≤ 40)
+    (h : Spec.fits u l cs = true) : Spec.fits 40 l cs = true :=
+  QR.Proofs.fits_forty l cs u h1 h40 h
+
+/-- **C03 (main, totality)**: for every payload and every valid setting, compiling a symbol either succeeds or fails
+    with DataOverflowError; no other exception escapes for any data content -/
+theorem C03_total (cfg : Model.Cfg) (hcfg : cfg.Valid) (l : Spec.Level) (hl : cfg.level = l.indicator)
+    (segs : List Model.Seg) (hv : ∀ s ∈ segs, s.Valid) :
+    (∃ r, Model.compile cfg segs = .ok r) ∨ Model.compile cfg segs = .error .dataOverflow :=
+  QR.Proofs.C03_total cfg hcfg l hl segs hv
+
+/-- **C03 (main, criterion)**: it fails exactly when the encoded bit stream exceeds the data capacity of the largest
+    admissible version - the requested version when one is given and fitting is disabled, version 40 otherwise -/
+theorem C03_iff (cfg : Model.Cfg) (hcfg : cfg.Valid) (l : Spec.Level) (hl : cfg.level = l.indicator)
+    (segs : List Model.Seg) (hv : ∀ s ∈ segs, s.Valid) (ps : List Spec.PSeg) (hp : toPSegs segs = some ps) :
+    Model.compile cfg segs = .error .dataOverflow ↔
+      Spec.fits (if cfg.version ≠ 0 ∧ cfg.fit = false then cfg.version else 40) l (segCounts ps) = false :=
+  QR.Proofs.C03_iff cfg hcfg l hl segs hv ps hp
+
+/-- **C03 (main, result)**: on success the version is the smallest adequate one from the requested start when
+    fitting (`cfg.version = 0`, Python's `None`, meaning start 1), the requested version when fitting is off (the
+    smallest adequate one overall when none was requested); a requested mask pattern is the one used -/
+theorem C03_version (cfg : Model.Cfg) (hcfg : cfg.Valid) (l : Spec.Level) (hl : cfg.level = l.indicator)
+    (segs : List Model.Seg) (hv : ∀ s ∈ segs, s.Valid) (ps : List Spec.PSeg) (hp : toPSegs segs = some ps)
+    (v m : Nat) (M : Model.Mat) (h : Model.compile cfg segs = .ok (v, m, M)) :
+    (if cfg.fit then Spec.minVersion cfg.version l (segCounts ps) = some v
+     else (cfg.version ≠ 0 → v = cfg.version) ∧ (cfg.version = 0 → Spec.minVersion 0 l (segCounts ps) = some v)) ∧
+    (∀ m', cfg.mask = some m' → m = m') :=
+  QR.Proofs.C03_version cfg hcfg l hl segs hv ps hp v m M h
+
+/-- on success the version is in 1..40 and adequate, and the mask used is one of the eight patterns -/
+theorem C03_ok_range (cfg : Model.Cfg) (hcfg : cfg.Valid) (l : Spec.Level) (hl : cfg.level = l.indicator)
+    (segs : List Model.Seg) (hv : ∀ s ∈ segs, s.Valid) (ps : List Spec.PSeg) (hp : toPSegs segs = some ps)
+    (v m : Nat) (M : Model.Mat) (h : Model.compile cfg segs = .ok (v, m, M)) :
+    1 ≤ v ∧ v ≤ 40 ∧ m ≤ 7 ∧ Spec.fits v l (segCounts ps) = true :=
+  QR.Proofs.C03_ok_range cfg hcfg l hl segs hv ps hp v m M h
+
+/-- non-vacuity: all four ISO levels and both kinds of configuration satisfy the hypotheses -/
+example : (⟨0, Spec.Level.L.indicator, none, true⟩ : Model.Cfg).Valid := ⟨by decide, fun _ h => by cases h⟩
+example : (⟨40, Spec.Level.H.indicator, some 7, false⟩ : Model.Cfg).Valid :=
+  ⟨by decide, fun m h => by cases h; decide⟩
+
+/-- the published boundaries, on the Spec side of `C03_iff`: 7089 / 7090 digits at 40-L, 17 / 18 bytes at 1-L -/
+example : Spec.fits 40 .L [(.numeric, 7089)] = true ∧ Spec.fits 40 .L [(.numeric, 7090)] = false ∧
+    Spec.fits 1 .L [(.byte, 17)] = true ∧ Spec.fits 1 .L [(.byte, 18)] = false := by decide
 
 end QR.Props
